@@ -1,8 +1,8 @@
 // C14 - file and stream reads are complete regardless of how delivery is chunked; directory listing,
 // recursive unlink, dirname/basename, scoped_fd and Poll bookkeeping.
 //
-// Link with -Wl,--wrap=read,--wrap=pread,--wrap=close: the wrappers below make the chunking of read()
-// a generated input (short-read plans) and log every close().
+// Link with -Wl,--wrap=read,--wrap=pread,--wrap=close,--wrap=write: the wrappers below make the chunking of read()
+// (short-read plans) and of write() (short-write plans for save_file) a generated input and log every close().
 #include <phosg/Filesystem.hh>
 
 #include <optional>
@@ -53,6 +53,24 @@ extern "C" ssize_t __wrap_pread(int fd, void* buf, size_t n, off_t off) {
   p.calls++;
   if (r > 0) {
     p.delivered += r;
+    if (req < n) p.truncated++;
+  }
+  return r;
+}
+
+extern "C" ssize_t __wrap_write(int fd, const void* buf, size_t n) {
+  WritePlan& p = write_plan();
+  if (!p.active || fd != p.fd) return __real_write(fd, buf, n);
+  if (p.fail_now()) {
+    errno = p.fail_errno; // a failed write: nothing is accepted
+    return -1;
+  }
+  uint64_t lim = p.lim.next();
+  size_t req = std::min<uint64_t>(n, lim);
+  ssize_t r = __real_write(fd, buf, req);
+  p.calls++;
+  if (r > 0) {
+    p.accepted += r;
     if (req < n) p.truncated++;
   }
   return r;
@@ -138,6 +156,73 @@ static void run_file_roundtrip(const Case& c) {
   }
   VCHECK(open_fds() == before, "load-save-fd-leak", "save_file/load_file changed the set of open descriptors");
   ctx().cls(size_class(size));
+  ::unlink(path.c_str());
+}
+
+// ---------------------------------------------------------------- save_file when write() accepts less than requested
+//
+// "load_file(save_file(d)) = d for every byte string ... or throw; never silently a truncated or padded result": the
+// write-side twin of the short-read plans. write() on save_file's descriptor accepts only 1..k bytes per call (and keeps
+// accepting afterwards), or fails once (EINTR / EIO / ENOSPC, nothing accepted) at a chosen call. save_file may give up
+// (throw) or carry on; when it returns normally the file holds exactly d (same length AND same bytes) and load_file
+// returns d. With a plan that never shortens anything and no failing call it must not throw.
+// n = [size, seed, previous_size, overload, fail_at (0 none, j+1: write call j fails), errno code, k, plan_seed, L, plan...]
+static void run_save_short_write(const Case& c) {
+  Reader r(c);
+  uint64_t size = r.next(), seed = r.next(), prev = r.next(), overload = r.next(), fail_at = r.next(), ecode = r.next();
+  if (size > (1 << 20) || prev > (1 << 20) || ecode > 2) throw std::logic_error("case outside domain");
+  Limiter lim;
+  lim.k = r.next();
+  lim.seed = r.next();
+  lim.list = r.list();
+  std::string d = vg::expand(seed, size);
+  std::string path = scratch() + "/short_write.bin";
+  ::unlink(path.c_str());
+  if (prev) write_file_raw(path, std::string(prev, 'P'));
+  std::set<int> before = open_fds();
+  struct Arm {
+    ~Arm() { write_plan().disarm(); }
+  } arm;
+  // save_file opens its own descriptor: the next descriptor number is the lowest free one
+  int probe = ::open("/dev/null", O_RDONLY);
+  __real_close(probe);
+  write_plan().arm(probe, lim);
+  static const int errnos[3] = {EINTR, EIO, ENOSPC};
+  if (fail_at) {
+    write_plan().fail_calls = {fail_at - 1};
+    write_plan().fail_errno = errnos[ecode];
+  }
+  bool threw = false;
+  std::string what;
+  errno = 0;
+  try {
+    if (overload & 1) {
+      phosg::save_file(path, d);
+    } else {
+      phosg::save_file(path, d.data(), d.size());
+    }
+  } catch (const std::exception& e) {
+    threw = true;
+    what = e.what();
+  }
+  uint64_t calls = write_plan().calls, trunc = write_plan().truncated, faulted = write_plan().faulted;
+  write_plan().disarm();
+  VCHECK(calls >= 1 || size == 0, "harness-plan-not-applied", "the write plan did not see save_file's write (fd guess ", probe, ")");
+  const char* fault = faulted ? "failed-write" : trunc ? "short-write" : "whole-write";
+  if (!threw) {
+    std::string on_disk;
+    VCHECK(read_file_raw(path, on_disk), "save-file-missing", "save_file did not create ", path);
+    VCHECK(on_disk.size() == d.size(), cat("save-file-length:", fault), "save_file returned normally but the file has ", on_disk.size(), " bytes, expected ", d.size(), " (", calls, " write calls, ", trunc, " shortened, ", faulted, " failed)");
+    VCHECK(on_disk == d, cat("save-file-content:", fault), "save_file returned normally but the file differs from the data: ", first_diff(on_disk, d), " (", calls, " write calls, ", trunc, " shortened, ", faulted, " failed)");
+    std::string back = phosg::load_file(path);
+    VCHECK(back == d, cat("load-file-roundtrip:", fault), "load_file(save_file(d)) != d: ", first_diff(back, d));
+  } else if (trunc == 0 && faulted == 0) {
+    VFAIL("save-file-spurious-throw", "save_file threw although every write() accepted everything: ", what);
+  }
+  VCHECK(open_fds() == before, "save-file-fd-leak", "save_file changed the set of open descriptors (threw: ", threw, ")");
+  ctx().cls(cat("save_file:", fault, threw ? ":threw" : ":completed"));
+  ctx().cls(size_class(size));
+  if (trunc >= 1 || faulted >= 1) ctx().nontrivial_case();
   ::unlink(path.c_str());
 }
 
@@ -1196,24 +1281,41 @@ struct PollFixture {
   }
 };
 
-// n = [perm, (slot, action) ...]; action: 0 add POLLIN, 1 add POLLOUT, 2 remove, 3 add POLLIN|POLLOUT, 4 remove+close, 5 add 0
+// n = [perm, (slot, action) ...]; action: 0 add POLLIN, 1 add POLLOUT, 2 remove, 3 add POLLIN|POLLOUT, 4 remove+close, 5 add 0,
+// 6 the slot's descriptor is closed behind Poll's back (a plain close(), not Poll::remove), 7 the slot's descriptor NUMBER is
+// re-opened / replaced by a duplicate of base descriptor (slot code / 3) % 3 (dup2: what the lowest-free-number rule does to
+// a closed number sooner or later). Poll tracks descriptor numbers as a map: neither of the two is an add or a remove, so
+// the model keeps its entries; what poll() reports for them is whatever ::poll reports for that number (POLLNVAL while it
+// is closed, the new object's readiness after re-use).
 static void run_poll(const Case& c) {
   static PollFixture fx;
   uint64_t perm = c.u(0) % 6;
   static const int orders[6][3] = {{0, 1, 2}, {0, 2, 1}, {1, 0, 2}, {1, 2, 0}, {2, 0, 1}, {2, 1, 0}};
   int fds[3] = {-1, -1, -1};
+  bool ext_closed[3] = {false, false, false}; // fds[s] is a number that was closed behind Poll's back (still possibly registered)
   struct Cleanup {
     int* f;
+    bool* closed;
     ~Cleanup() {
       closelog().stop();
       for (int k = 0; k < 3; k++)
-        if (f[k] >= 0) __real_close(f[k]);
+        if (f[k] >= 0 && !closed[k]) __real_close(f[k]);
     }
-  } cleanup{fds};
+  } cleanup{fds, ext_closed};
+  // a new descriptor for slot s: the lowest free number, but never a number that is currently closed-behind-the-back
+  // (those are re-used only by action 7, explicitly)
+  auto fresh = [&](int s) {
+    int floor = 0;
+    for (int k = 0; k < 3; k++)
+      if (ext_closed[k]) floor = std::max(floor, fds[k] + 1);
+    int fd = ::fcntl(fx.base[s], F_DUPFD, floor);
+    if (fd < 0) throw std::logic_error("harness: dup");
+    return fd;
+  };
+  bool ext_happened = false;
   for (int k = 0; k < 3; k++) {
     int s = orders[perm][k];
-    fds[s] = ::dup(fx.base[s]);
-    if (fds[s] < 0) throw std::logic_error("harness: dup");
+    fds[s] = fresh(s);
   }
   std::map<int, short> model;
   phosg::Poll p;
@@ -1224,13 +1326,13 @@ static void run_poll(const Case& c) {
   VCHECK(p.empty(), "poll-empty-initial", "a new Poll is not empty");
   size_t step = 0;
   for (size_t i = 1; i + 1 < c.n.size(); i += 2, step++) {
-    uint64_t s = c.u(i) % 3, act = c.u(i + 1);
-    if (fds[s] < 0) {
-      fds[s] = ::dup(fx.base[s]);
-      if (fds[s] < 0) throw std::logic_error("harness: dup");
-    }
+    uint64_t s = c.u(i) % 3, src = (c.u(i) / 3) % 3, act = c.u(i + 1);
+    if (fds[s] < 0) fds[s] = fresh(s);
     int fd = fds[s];
     std::vector<int> want_closed;
+    // remove(fd, true) on a number that is not open would make Poll close() a closed descriptor: not an operation of the
+    // histories (what that does is not part of the map contract); it is run as a plain remove
+    if (act == 4 && ext_closed[s]) act = 2;
     switch (act) {
       case 0:
       case 1:
@@ -1255,6 +1357,19 @@ static void run_poll(const Case& c) {
         p.remove(fd, true);
         if (model.erase(fd)) fds[s] = -1;
         break;
+      case 6:
+        if (!ext_closed[s]) {
+          if (__real_close(fd) != 0) throw std::logic_error("harness: close");
+          ext_closed[s] = true;
+          ext_happened = true;
+        }
+        break;
+      case 7:
+        // the number now names (a duplicate of) base descriptor `src`, whether it was closed or open before
+        if (::dup2(fx.base[src], fd) != fd) throw std::logic_error("harness: dup2");
+        ext_closed[s] = false;
+        ext_happened = true;
+        break;
       default: throw std::logic_error("case: unknown poll action");
     }
     std::vector<int> got_closed;
@@ -1263,7 +1378,7 @@ static void run_poll(const Case& c) {
       got_closed.push_back(log.events[log_pos].fd);
     }
     VCHECK(got_closed == want_closed, "poll-remove-close", "step ", step, ": remove(fd,", act == 4, ") closed ", got_closed.size(), " descriptor(s), expected ", want_closed.size());
-    VCHECK(p.empty() == model.empty(), readd ? "poll-empty:after-readd" : "poll-empty", "step ", step, ": empty() is ", p.empty(), " but the model holds ", model.size(), " descriptor(s)");
+    VCHECK(p.empty() == model.empty(), ext_happened ? "poll-empty:after-external-close-or-reuse" : readd ? "poll-empty:after-readd" : "poll-empty", "step ", step, ": empty() is ", p.empty(), " but the model holds ", model.size(), " descriptor(s)");
     auto ready = p.poll(0);
     std::map<int, short> want;
     for (const auto& it : model) {
@@ -1276,11 +1391,12 @@ static void run_poll(const Case& c) {
       std::string g, w;
       for (auto& it : got) g += cat(it.first, ":", it.second, " ");
       for (auto& it : want) w += cat(it.first, ":", it.second, " ");
-      VFAIL(readd ? "poll-ready-set:after-readd" : "poll-ready-set", "step ", step, ": poll(0) returned {", g, "} expected {", w, "} (fd:revents)");
+      VFAIL(ext_happened ? "poll-ready-set:after-external-close-or-reuse" : readd ? "poll-ready-set:after-readd" : "poll-ready-set", "step ", step, ": poll(0) returned {", g, "} expected {", w, "} (fd:revents)");
     }
   }
   log.stop();
-  if (step >= 3 && (readd || removed_present)) ctx().nontrivial_case();
+  if (ext_happened) ctx().cls("poll:descriptor-closed-or-replaced-behind-poll");
+  if (step >= 3 && (readd || removed_present || ext_happened)) ctx().nontrivial_case();
 }
 
 // ---------------------------------------------------------------- generators
@@ -1344,6 +1460,18 @@ static Case gen_file_roundtrip() {
   Delivery d;
   if (use_plan) gen_reader_plan(d, size);
   c.N(use_plan).N(d.k).N(d.seed).N(d.list.size());
+  for (auto v : d.list) c.N(v);
+  return c;
+}
+
+static Case gen_save_short_write() {
+  Case c("save_short_write");
+  size_t size = gen_size();
+  Delivery d;
+  gen_reader_plan(d, size); // the same shapes, applied to write(): whole, a few short chunks, 1..k, block-size neighbours, constant chunks
+  uint64_t fail_at = vg::chance(1, 4) ? 1 + vg::below(4) : 0;
+  c.N(size).N(vg::u64()).N(vg::chance(1, 3) ? gen_size(70000) : 0).N(vg::below(2)).N(fail_at).N(vg::below(3));
+  c.N(d.k).N(d.seed).N(d.list.size());
   for (auto v : d.list) c.N(v);
   return c;
 }
@@ -1599,7 +1727,11 @@ static Case gen_poll() {
   Case c("poll");
   c.N(vg::below(6));
   uint64_t steps = 1 + vg::below(12);
-  for (uint64_t i = 0; i < steps; i++) c.N(vg::below(3)).N(vg::pick<uint64_t>({0, 0, 1, 1, 2, 2, 3, 4, 5}));
+  bool behind = vg::chance(1, 3); // histories in which descriptors are also closed / re-used behind Poll's back
+  for (uint64_t i = 0; i < steps; i++) {
+    uint64_t act = behind ? vg::pick<uint64_t>({0, 0, 1, 2, 2, 3, 4, 5, 6, 6, 6, 7, 7}) : vg::pick<uint64_t>({0, 0, 1, 1, 2, 2, 3, 4, 5});
+    c.N(vg::below(3) + (act == 7 ? 3 * vg::below(3) : 0)).N(act);
+  }
   return c;
 }
 
@@ -1650,6 +1782,34 @@ static void for_compositions(uint64_t total, F&& f) {
     parts.push_back(cur);
     f(parts);
   }
+}
+
+static void enum_save_short_write(Enum& e) {
+  uint64_t idx = 0;
+  // every composition of every total <= 8 as the short-write plan (the last part is followed by unlimited writes), without a
+  // failing call and with the failing call (EINTR / EIO / ENOSPC in turn) at every call index
+  for (uint64_t total = 0; total <= 8 && !e.stop; total++) {
+    for_compositions(total, [&](const std::vector<uint64_t>& parts) {
+      for (uint64_t fail_at = 0; fail_at <= parts.size() + 1; fail_at++) {
+        if (!e.mine(idx++)) continue;
+        Case c("save_short_write");
+        c.N(total).N(total * 131 + parts.size()).N(fail_at % 2 ? 0 : 12).N(idx & 1).N(fail_at).N(idx % 3).N(0).N(0).N(parts.size());
+        for (auto v : parts) c.N(v);
+        e.exec(c);
+      }
+    });
+  }
+  // block-boundary sizes: first write shortened to half / to size-1 / to 1 byte, and 1..7-byte writes for the small ones
+  for (size_t s : boundary_sizes()) {
+    if (e.stop) break;
+    if (!e.mine(idx++) || s == 0) continue;
+    for (uint64_t first : {uint64_t(s / 2 + 1), uint64_t(s - 1), uint64_t(1)}) {
+      if (first == 0 || first >= s) continue;
+      e.exec(Case("save_short_write").N(s).N(s * 37 + first).N(0).N(first & 1).N(0).N(0).N(0).N(0).N(1).N(first));
+    }
+    if (s <= 300) e.exec(Case("save_short_write").N(s).N(s * 41).N(s + 50).N(1).N(0).N(0).N(7).N(s).N(0));
+  }
+  e.complete("save_file under every composition of every total <= 8 as the short-write plan x no failing write / the failing write (EINTR, EIO, ENOSPC) at every call index; sizes 1..3, 250..260, 16380..16390, 32764..32772 with the first write shortened to 1, size/2+1 and size-1 bytes");
 }
 
 static void enum_read_all(Enum& e) {
@@ -1918,7 +2078,28 @@ static void enum_poll(Enum& e) {
     }
     e.exec(c);
   }
-  e.complete("every add(POLLIN)/add(POLLOUT)/remove history of length 6 (and, as prefixes, shorter) over 3 descriptors: 531441 histories");
+  // every history of length 5 over 2 descriptors x {add POLLIN, add POLLOUT, remove, close behind Poll's back, re-use of the number}
+  {
+    static const uint64_t acts[5] = {0, 1, 2, 6, 7};
+    const int L2 = 5;
+    uint64_t total2 = 1;
+    for (int k = 0; k < L2; k++) total2 *= 10;
+    for (uint64_t code = 0; code < total2 && !e.stop; code++) {
+      if (!e.mine((total >> 4) + 1 + (code >> 4))) continue;
+      Case c("poll");
+      c.N(code % 6);
+      uint64_t t = code;
+      for (int k = 0; k < L2; k++) {
+        uint64_t step = t % 10;
+        t /= 10;
+        uint64_t slot = step / 5, act = acts[step % 5];
+        // the re-used number gets a duplicate of the other kind of descriptor (readable <-> writable)
+        c.N(act == 7 ? slot + 3 * (1 - slot) : slot).N(act);
+      }
+      e.exec(c);
+    }
+  }
+  e.complete("every add(POLLIN)/add(POLLOUT)/remove history of length 6 (and, as prefixes, shorter) over 3 descriptors: 531441 histories; every history of length 5 over 2 descriptors x {add POLLIN, add POLLOUT, remove, descriptor closed behind Poll's back, descriptor number re-used}: 100000 histories");
 }
 
 static void enum_scoped(Enum& e) {
@@ -1965,6 +2146,7 @@ int main(int argc, char** argv) {
   signal(SIGPIPE, SIG_IGN);
   std::vector<SubCheck> checks;
   checks.push_back({"file_roundtrip", run_file_roundtrip, gen_file_roundtrip, 4000, 30000, 100, enum_file_roundtrip});
+  checks.push_back({"save_short_write", run_save_short_write, gen_save_short_write, 3000, 25000, 100, enum_save_short_write});
   checks.push_back({"load_shrunk", run_load_shrunk, gen_load_shrunk, 1500, 15000, 100, enum_load_shrunk});
   checks.push_back({"read_all", run_read_all, gen_read_all, 8000, 80000, 100, enum_read_all});
   checks.push_back({"fgets", run_fgets, gen_fgets, 8000, 80000, 100, enum_fgets});
